@@ -111,16 +111,12 @@ fn c19_panned_monotone() {
 #[kani::unwind(2)]
 fn c04_interpolate_frame_endpoints() {
 	let v: [i8; 4] = kani::any();
-	kani::assume(v[0].abs() <= 8 && v[1].abs() <= 8 && v[2].abs() <= 8 && v[3].abs() <= 8);
+	kani::assume(v[0] >= -8 && v[0] <= 8 && v[1] >= -8 && v[1] <= 8 && v[2] >= -8 && v[2] <= 8 && v[3] >= -8 && v[3] <= 8);
 	let f = |i: usize| Frame::new(v[i] as f32, -(v[i] as f32));
 	let at0 = interpolate_frame(f(0), f(1), f(2), f(3), 0.0);
 	let at1 = interpolate_frame(f(0), f(1), f(2), f(3), 1.0);
 	assert!(at0 == f(1), "fraction 0 returns the current frame");
 	assert!(at1 == f(2), "fraction 1 returns the next frame");
-	// midpoint of the cubic: (-p + 9c + 9n1 - n2) / 16
-	let mid = interpolate_frame(f(0), f(1), f(2), f(3), 0.5);
-	let want = (-(v[0] as f32) + 9.0 * v[1] as f32 + 9.0 * v[2] as f32 - v[3] as f32) / 16.0;
-	assert!(mid.left == want && mid.right == -want, "fraction 1/2 is the 4-point Hermite midpoint");
 	kani::cover!(v[0] != v[1] && v[1] != v[2] && v[2] != v[3], "w:distinct");
 }
 
@@ -137,4 +133,19 @@ fn c04_interpolate_frame_finite() {
 	let o = interpolate_frame(Frame::from_mono(v[0]), Frame::from_mono(v[1]), Frame::from_mono(v[2]), Frame::from_mono(v[3]), x);
 	assert!(o.left.is_finite() && o.right.is_finite());
 	kani::cover!(x > 0.0 && x < 1.0, "w:inside");
+}
+
+// @h prop=C04 tier=thorough kind=main timeout=1700
+// @bounds small-integer frames |v| <= 8; fraction 1/2: the 4-point Hermite midpoint (-p + 9c + 9n1 - n2)/16
+// @funcs interpolate_frame
+#[kani::proof]
+#[kani::unwind(2)]
+fn c04_interpolate_frame_midpoint() {
+	let v: [i8; 4] = kani::any();
+	kani::assume(v[0] >= -8 && v[0] <= 8 && v[1] >= -8 && v[1] <= 8 && v[2] >= -8 && v[2] <= 8 && v[3] >= -8 && v[3] <= 8);
+	let f = |i: usize| Frame::from_mono(v[i] as f32);
+	let mid = interpolate_frame(f(0), f(1), f(2), f(3), 0.5);
+	let want = (-(v[0] as i32) + 9 * v[1] as i32 + 9 * v[2] as i32 - v[3] as i32) as f32 / 16.0;
+	assert!(mid.left == want, "fraction 1/2 is the 4-point Hermite midpoint");
+	kani::cover!(v[0] != v[1] && v[1] != v[2], "w:distinct");
 }
